@@ -146,3 +146,48 @@ Definition err_class (bs : list bool) : Prop :=
   (exists a x z, (x < 65536)%N /\ x <> 0%N /\ bs = zeros a ++ bits16 x ++ zeros z) \/
   (* a burst: every flipped bit lies in a span w of at most 16 bits (the frame itself has at least 16 bits) *)
   (exists a w z, length w <= 16 /\ w <> zeros (length w) /\ 16 <= length bs /\ bs = zeros a ++ w ++ zeros z).
+
+(* ---------------- the incomplete last frame of a stream ---------------- *)
+(* what is left after the complete frames, when the stream ends inside (or exactly at the end of)
+   a frame: the bytes the next bytes of the connection will be appended to. (If a frame is
+   malformed the run has ended anyway and the value is irrelevant: the stream itself.) *)
+Fixpoint ref_tail (fuel : nat) (s : list N) : list N :=
+  match fuel with
+  | O => s
+  | S fuel =>
+      match s with
+      | t1 :: t0 :: p1 :: p0 :: l1 :: l0 :: u :: body =>
+          let len := N.to_nat (be l1 l0) in
+          if negb (N.eqb (be p1 p0) 0) then s
+          else if Nat.ltb 254 len then s
+          else if Nat.eqb len 0 then s
+          else if Nat.ltb (length body) (len - 1) then s
+          else ref_tail fuel (skipn (len - 1) body)
+      | _ => s
+      end
+  end.
+Definition mbap_tail (s : list N) : list N := ref_tail (S (length s)) s.
+
+Definition rtu_body_tail (k : list N -> list N) (whole : list N) (addr : N) (plen : nat) (t : list N) : list N :=
+  if Nat.ltb 253 plen then whole
+  else if Nat.ltb (length t) (plen + 2) then whole
+  else if N.eqb (nth plen t 0 + 256 * nth (plen + 1) t 0)%N (crc (addr :: firstn plen t)) then k (skipn (plen + 2) t)
+  else whole.
+Fixpoint rref_tail (fuel : nat) (r : role) (s : list N) : list N :=
+  match fuel with
+  | O => s
+  | S fuel =>
+      match s with
+      | addr :: fc :: rest =>
+          let t := fc :: rest in
+          match length_rule r fc with
+          | LUnknown => s
+          | LFixed n => rtu_body_tail (rref_tail fuel r) s addr (1 + n) t
+          | LCount off =>
+              if Nat.ltb (length t) (1 + off) then s
+              else rtu_body_tail (rref_tail fuel r) s addr (1 + off + N.to_nat (nth off t 0%N)) t
+          end
+      | _ => s
+      end
+  end.
+Definition rtu_tail (r : role) (s : list N) : list N := rref_tail (S (length s)) r s.
